@@ -175,7 +175,7 @@ func run(c *lib.Ctx) {
 		return
 	}
 
-	n := c.N(12800, 304000)
+	n := c.N(12800, 1600000)
 	minimised := map[string]int{}
 	done := 0
 	nhist := 0
